@@ -915,8 +915,20 @@ def run_step(ctx, S, step, outdir, mon_files=True):
     ctx.mon("ambient_state")["comparisons"] += 1
     if amb1 != amb0:
         diff = {k: (amb0[k], amb1[k]) for k in amb0 if amb0[k] != amb1[k]}
-        ctx.violation(f"{name}/ambient_state:{sorted(diff)[0]}", f"{name} changed process-wide state that later calls depend on: {diff}; parameters {step['par']}",
-                      {"step": name, "par": step["par"], "changed": {k: [str(a), str(b)] for k, (a, b) in diff.items()}}, "ambient_state")
+        # only state through which a LATER call with the same inputs returns something else / writes elsewhere is C18's business:
+        # the working directory (relative output paths) and floating-point error handling switched to "raise" (later calls would raise
+        # where they returned).  Anything else (numpy print options, which Nnearests widens process-wide for its own array2string
+        # output and no other routine depends on; error handling switched to "ignore" / "warn") is recorded as a note, not a violation.
+        bad = {}
+        if "cwd" in diff:
+            bad["cwd"] = diff["cwd"]
+        if "np.geterr" in diff and any(v == "raise" and amb0["np.geterr"].get(k) != "raise" for k, v in amb1["np.geterr"].items()):
+            bad["np.geterr"] = diff["np.geterr"]
+        for k in sorted(set(diff) - set(bad)):
+            ctx.note(f"{name} changes process-wide state '{k}' (observed; outside what C18 states, not a violation)")
+        if bad:
+            ctx.violation(f"{name}/ambient_state:{sorted(bad)[0]}", f"{name} changed process-wide state that later calls depend on: {bad}; parameters {step['par']}",
+                          {"step": name, "par": step["par"], "changed": {k: [str(a), str(b)] for k, (a, b) in bad.items()}}, "ambient_state")
         try:
             np.seterr(**amb0["np.geterr"])
             os.chdir(amb0["cwd"])
